@@ -14,6 +14,8 @@ def run(vc, tier):
     # multithreaded flush points: the C11 drivers with flushes (D2: 7-byte outputs; D12: flush carrying new input while all workers are busy; D6: abandon/restart)
     for drv, P, D in ([(2, 2, 2), (12, 2, 2)] if tier == 'quick' else [(2, 2, 3), (12, 2, 3), (6, 1, 2)]):
         c.run_vx_unit('c10-mt-d%d' % drv, ['harness/c11_mt.c', 'ref/edu_decoder.c'], 'sched-asan', ['--driver', drv, '--P', P, '--D', D, '--exec-timeout', 20000], engine_srcs=['engine/vsched.c'], share=0.3)
+    # rsyncable with real synchronisation points (256 KiB jobs, 2.5 MiB): end / flush directives with and without payload; default schedule
+    c.run_vx_unit('c10-mt-d15', ['harness/c11_mt.c', 'ref/edu_decoder.c'], 'sched-asan', ['--driver', 15, '--P', 0, '--D', 0, '--exec-timeout', 60000], engine_srcs=['engine/vsched.c'], share=0.3)
     import C10_hints
     C10_hints.run_units(vc, c, tier)
     c.states = sum(r.done.get('visited', 0) for _, r, _ in c.units)
